@@ -6,7 +6,6 @@ import (
 	"fmt"
 	"io"
 	"io/fs"
-	"io/ioutil"
 	"os"
 	"strings"
 
@@ -30,6 +29,9 @@ var (
 	errInvalidBufferSize = errors.New("invalid buffer size")
 )
 
+// maxBufferSize is the largest buffer a program can ask for with setvbuf.
+const maxBufferSize = 1 << 30
+
 // A File wraps an os.File for manipulation by iolib.
 type File struct {
 	file   *os.File
@@ -38,6 +40,37 @@ type File struct {
 	status fileStatus
 	reader bufReader
 	writer bufWriter
+
+	// charge, when set, accounts for the memory of what is being read (it is
+	// set for the duration of a read by the library functions, which know the
+	// runtime).  It may not return if a memory limit is reached.
+	charge func(n int)
+}
+
+// readAll reads from rd until it is exhausted, piece by piece, accounting for
+// every piece before keeping it: the amount read is decided by the program (a
+// count, the size of a file it made, an endless device) and can be huge.
+func (f *File) readAll(rd io.Reader) ([]byte, error) {
+	var (
+		res []byte
+		buf [32 * 1024]byte
+	)
+	for {
+		n, err := rd.Read(buf[:])
+		if n > 0 {
+			if f.charge != nil {
+				f.charge(n)
+			}
+			res = append(res, buf[:n]...)
+		}
+		switch err {
+		case nil:
+		case io.EOF:
+			return res, nil
+		default:
+			return res, err
+		}
+	}
 }
 
 var _ rt.UserDataResourceReleaser = (*File)(nil)
@@ -193,10 +226,35 @@ func (f *File) Flush() error {
 // ReadLine reads a line from the file.  If withEnd is true, it will include the
 // end of the line in the returned value.
 func (f *File) ReadLine(withEnd bool) (rt.Value, error) {
-	s, err := f.reader.ReadString('\n')
+	// The line is put together from the pieces the buffered reader can hold,
+	// each accounted for before it is kept: a "line" can be of any length.
+	var (
+		line []byte
+		err  error
+	)
+	if br, ok := f.reader.(*bufio.Reader); ok {
+		for {
+			var piece []byte
+			piece, err = br.ReadSlice('\n')
+			if len(piece) > 0 {
+				if f.charge != nil {
+					f.charge(len(piece))
+				}
+				line = append(line, piece...)
+			}
+			if err != bufio.ErrBufferFull {
+				break
+			}
+		}
+	} else {
+		var str string
+		str, err = f.reader.ReadString('\n')
+		line = []byte(str)
+	}
 	if err != nil && err != io.EOF {
 		return rt.NilValue, err
 	}
+	s := string(line)
 	l := len(s)
 	if l == 0 {
 		return rt.NilValue, err
@@ -228,7 +286,7 @@ func (f *File) Read(n int) (rt.Value, error) {
 	}
 	// Do not allocate n bytes upfront: n is chosen by the program and may be
 	// much bigger than what there is to read (or than what can be allocated).
-	b, err := ioutil.ReadAll(io.LimitReader(f.reader, int64(n)))
+	b, err := f.readAll(io.LimitReader(f.reader, int64(n)))
 	if err != nil {
 		return rt.NilValue, err
 	}
@@ -241,7 +299,7 @@ func (f *File) Read(n int) (rt.Value, error) {
 // ReadAll attempts to read the whole file and return a lua string containing
 // it.
 func (f *File) ReadAll() (rt.Value, error) {
-	b, err := ioutil.ReadAll(f.reader)
+	b, err := f.readAll(f.reader)
 	if err != nil {
 		return rt.NilValue, err
 	}
@@ -311,7 +369,7 @@ func (f *File) Seek(offset int64, whence int) (n int64, err error) {
 }
 
 func (f *File) SetWriteBuffer(mode string, size int) error {
-	if size < 0 {
+	if size < 0 || size > maxBufferSize {
 		return errInvalidBufferSize
 	}
 	f.Flush()
